@@ -175,7 +175,7 @@ class CoverpointBinCollectionModel(CoverpointBinModelBase):
         ret = CoverpointBinCollectionModel(name)
         if n_bins < n_values:
             # We need to partition the values into bins
-            values_per_bin = int(n_values/n_bins)
+            values_per_bin = n_values // n_bins
             have_leftover  = ((n_values%n_bins) != 0)
             r = None
             
